@@ -36,6 +36,9 @@ type World struct {
 	SwitchPool bool // always consider switching at pool operations
 	Switches   int
 	SchedHash  uint64
+	// GuardGrowth: buffers allocated at the library's growth sites end flush against an unmapped page
+	GuardGrowth bool
+	grown       []*Buf
 	HashSeed   uint64 // seed of the string hash seam (tape-chosen by the harness; 0 = default)
 	curOp      int // harness-maintained: id of the operation that is running (for provenance)
 	Events     func(s string)
@@ -50,10 +53,11 @@ const (
 	StatShaped
 	StatGC
 	StatSwitch
+	StatGuardGrowth
 	NStat
 )
 
-var StatNames = [NStat]string{"pool_fresh", "pool_recycled", "pool_recycled_not_latest", "pool_put", "poison_verified", "fresh_shaped", "gc_clobber", "task_switch"}
+var StatNames = [NStat]string{"pool_fresh", "pool_recycled", "pool_recycled_not_latest", "pool_put", "poison_verified", "fresh_shaped", "gc_clobber", "task_switch", "guarded_growth_buffers"}
 
 type StepLimitExceeded struct{ Steps uint64 }
 
@@ -75,7 +79,12 @@ func Begin(w *World) {
 // End detaches the current world. Pooled objects of the world are dropped.
 //
 //go:norace
-func End() { cur = nil }
+func End() {
+	if cur != nil {
+		cur.releaseGrown()
+	}
+	cur = nil
+}
 
 //go:norace
 func Cur() *World { return cur }
